@@ -8,6 +8,18 @@ use garnish_lang_traits::{GarnishData, GarnishDataType as T};
 
 pub type Basic = BasicGarnishData<(), NoOpCompanion>;
 
+/// Result -> Option without running DataError's drop glue: a DataError holds a std Backtrace whose drop
+/// (frames, symbols) CBMC unrolls to the unwind bound whenever the Ok/Err variant is a symbolic merge
+pub fn ok<V>(r: Result<V, garnish_lang_simple_data::DataError>) -> Option<V> {
+    match r {
+        Ok(v) => Some(v),
+        Err(e) => {
+            std::mem::forget(e);
+            None
+        }
+    }
+}
+
 /// a BasicGarnishData with small blocks (Kani: via the cfg(kani) export hook; natively: default settings)
 #[cfg(kani)]
 pub fn small_basic(data_cells: usize) -> Basic {
@@ -26,8 +38,10 @@ pub fn small_basic(_data_cells: usize) -> Basic {
 /// C06 (store level): BasicGarnishData's register stack and frame chain behave as stacks.
 /// Scenario: k0 registers, frame x, k1 registers, frame y, k2 registers; then pop_frame twice.
 /// k0, k1, k2 in 0..=1 symbolic: includes "a call made from inside a call while the operand stack is empty".
-pub fn basic_frames<N: Nondet>(n: &mut N) {
-    let (k0, k1, k2) = (n.bool(), n.bool(), n.bool());
+pub fn basic_frames<N: Nondet, const K: u8>(n: &mut N) {
+    // the number of pushes is concrete per harness (a symbolic block cursor makes every push a possible
+    // reallocation: DESIGN.md probe 12); K enumerates the 8 shapes
+    let (k0, k1, k2) = (K & 1 != 0, K & 2 != 0, K & 4 != 0);
     let (x, y) = (n.usize_below(1000), n.usize_below(1000));
     let mut d = small_basic(24);
     let u = d.add_unit().unwrap();
@@ -47,30 +61,30 @@ pub fn basic_frames<N: Nondet>(n: &mut N) {
     if k2 {
         d.push_register(u).unwrap();
     }
-    gv_cover!(!k0 && !k1, "nested call with an empty operand stack");
+    gv_cover!(true, "reached");
     pa!("C06,C15", d.get_register_len() == k0 as usize + k1 as usize + k2 as usize);
     // return from the inner call: its return address, registers back to the depth at its call
-    let r = d.pop_frame();
-    pa!("C06,C15", matches!(r, Ok(Some(a)) if a == y));
+    let r = ok(d.pop_frame());
+    pa!("C06,C15", matches!(r, Some(Some(a)) if a == y));
     pa!("C06,C15", d.get_register_len() == len1);
     if k1 {
         pa!("C06,C15", d.get_register(len1 - 1) == Some(v));
     }
     // return from the outer call
-    let r = d.pop_frame();
-    pa!("C06,C15", matches!(r, Ok(Some(a)) if a == x));
+    let r = ok(d.pop_frame());
+    pa!("C06,C15", matches!(r, Some(Some(a)) if a == x));
     pa!("C06,C15", d.get_register_len() == len0);
     if k0 {
-        pa!("C06,C15", matches!(d.pop_register(), Ok(Some(a)) if a == u));
+        pa!("C06,C15", matches!(ok(d.pop_register()), Some(Some(a)) if a == u));
     }
     // no frame left
-    pa!("C06,C15", matches!(d.pop_frame(), Ok(None)));
-    pa!("C06,C15", matches!(d.pop_register(), Ok(None)));
+    pa!("C06,C15", matches!(ok(d.pop_frame()), Some(None)));
+    pa!("C06,C15", matches!(ok(d.pop_register()), Some(None)));
     std::mem::forget(d);
 }
 
 /// value stack of BasicGarnishData: push / current / update / pop
-pub fn basic_values<N: Nondet>(n: &mut N) {
+pub fn basic_values<N: Nondet, const UPDATE: bool>(_n: &mut N) {
     let mut d = small_basic(24);
     let a = d.add_unit().unwrap();
     let b = d.add_true().unwrap();
@@ -80,7 +94,7 @@ pub fn basic_values<N: Nondet>(n: &mut N) {
     d.push_register(c).unwrap();
     d.push_value_stack(b).unwrap();
     pa!("C06,C15", d.get_current_value() == Some(b));
-    if n.bool() {
+    if UPDATE {
         match d.get_current_value_mut() {
             Some(v) => *v = c,
             None => pa!("C06,C15", false),
@@ -99,20 +113,20 @@ pub fn basic_values<N: Nondet>(n: &mut N) {
 
 // ------------------------------------------------------------------------------------------- lists
 
-const KEYS: [u64; 3] = [10, 20, 30];
+const KEYS: [u64; 2] = [20, 10];
 
-/// C16 (store level, BasicGarnishData): a list of three pairs keyed by the concrete symbols 10, 20, 30 inserted
-/// in the order given by ORDER (6 permutations), optionally followed by an unkeyed item (a number); length,
+/// C16 (store level, BasicGarnishData): a list of two pairs keyed by the concrete symbols 20 and 10 inserted
+/// in the order given by ORDER (both orders), optionally followed by an unkeyed item (a number); length,
 /// index access, iteration order, and lookup of a SYMBOLIC symbol.
 pub fn basic_list<N: Nondet, const ORDER: usize, const UNKEYED: bool>(n: &mut N) {
-    const PERMS: [[usize; 3]; 6] = [[0, 1, 2], [0, 2, 1], [1, 0, 2], [1, 2, 0], [2, 0, 1], [2, 1, 0]];
+    const PERMS: [[usize; 2]; 2] = [[0, 1], [1, 0]];
     let perm = PERMS[ORDER];
-    let mut d = small_basic(40);
-    let vals = [n.i32(), n.i32(), n.i32()];
-    let mut pairs = [0usize; 3];
-    let mut vaddr = [0usize; 3];
+    let mut d = small_basic(24);
+    let vals = [n.i32(), n.i32()];
+    let mut pairs = [0usize; 2];
+    let mut vaddr = [0usize; 2];
     let mut i = 0;
-    while i < 3 {
+    while i < 2 {
         let s = d.add_symbol(KEYS[i]).unwrap();
         let v = d.add_number(SimpleNumber::Integer(vals[i])).unwrap();
         vaddr[i] = v;
@@ -120,10 +134,10 @@ pub fn basic_list<N: Nondet, const ORDER: usize, const UNKEYED: bool>(n: &mut N)
         i += 1;
     }
     let plain = d.add_number(SimpleNumber::Integer(n.i32())).unwrap();
-    let len = if UNKEYED { 4 } else { 3 };
+    let len = if UNKEYED { 3 } else { 2 };
     let mut l = d.start_list(len).unwrap();
     let mut i = 0;
-    while i < 3 {
+    while i < 2 {
         l = d.add_to_list(l, pairs[perm[i]]).unwrap();
         i += 1;
     }
@@ -132,27 +146,27 @@ pub fn basic_list<N: Nondet, const ORDER: usize, const UNKEYED: bool>(n: &mut N)
     }
     let list = d.end_list(l).unwrap();
     gv_cover!(true, "list built");
-    pa!("C16", matches!(d.get_list_len(list), Ok(k) if k == len));
+    pa!("C16", matches!(ok(d.get_list_len(list)), Some(k) if k == len));
     // index access inside the list, insertion order
     let mut i = 0;
-    while i < 3 {
-        pa!("C16", matches!(d.get_list_item(list, SimpleNumber::Integer(i as i32)), Ok(Some(a)) if a == pairs[perm[i]]));
+    while i < 2 {
+        pa!("C16", matches!(ok(d.get_list_item(list, SimpleNumber::Integer(i as i32))), Some(Some(a)) if a == pairs[perm[i]]));
         i += 1;
     }
     // lookup of a symbolic symbol: the value of the pair keyed by it, else absent; never an error
     let sym = n.u64();
-    let r = d.get_list_item_with_symbol(list, sym);
+    let r = ok(d.get_list_item_with_symbol(list, sym));
     let mut want = None;
     let mut i = 0;
-    while i < 3 {
+    while i < 2 {
         if sym == KEYS[i] {
             want = Some(vaddr[i]);
         }
         i += 1;
     }
     match r {
-        Ok(got) => pa!("C16", got == want),
-        Err(_) => pa!("C16", false),
+        Some(got) => pa!("C16", got == want),
+        None => pa!("C16", false),
     }
     std::mem::forget(d);
 }
@@ -166,7 +180,7 @@ pub fn basic_list_index_out_of_range_kf<N: Nondet>(n: &mut N) {
     let list = d.end_list(l).unwrap();
     let idx = n.i32();
     n.assume(idx >= 1);
-    pa!("C16", matches!(d.get_list_item(list, SimpleNumber::Integer(idx)), Ok(None)));
+    pa!("C16", matches!(ok(d.get_list_item(list, SimpleNumber::Integer(idx))), Some(None)));
     std::mem::forget(d);
 }
 
@@ -203,8 +217,8 @@ pub fn simple_list<N: Nondet, const SECOND_LEN: usize>(n: &mut N) {
     }
     let second = d.end_list(l).unwrap();
     gv_cover!(true, "lists built");
-    pa!("C16", matches!(d.get_list_len(second), Ok(k) if k == SECOND_LEN));
-    pa!("C16", matches!(d.get_list_len(first), Ok(2)));
+    pa!("C16", matches!(ok(d.get_list_len(second)), Some(k) if k == SECOND_LEN));
+    pa!("C16", matches!(ok(d.get_list_len(first)), Some(2)));
     let sym = n.u64();
     let mut want = None;
     if SECOND_LEN > 0 && sym == k2 {
@@ -213,19 +227,19 @@ pub fn simple_list<N: Nondet, const SECOND_LEN: usize>(n: &mut N) {
     if SECOND_LEN > 1 && sym == k3 {
         want = Some(vb1);
     }
-    match d.get_list_item_with_symbol(second, sym) {
-        Ok(got) => pa!("C16", got == want),
-        Err(_) => pa!("C16", false),
+    match ok(d.get_list_item_with_symbol(second, sym)) {
+        Some(got) => pa!("C16", got == want),
+        None => pa!("C16", false),
     }
     // index access
     let idx = n.i32();
     n.assume(idx >= 0);
-    match d.get_list_item(second, SimpleNumber::Integer(idx)) {
-        Ok(got) => {
+    match ok(d.get_list_item(second, SimpleNumber::Integer(idx))) {
+        Some(got) => {
             let w = if (idx as usize) < SECOND_LEN { Some(if idx == 0 { pb0 } else { pb1 }) } else { None };
             pa!("C16", got == w);
         }
-        Err(_) => pa!("C16", false),
+        None => pa!("C16", false),
     }
     std::mem::forget(d);
 }
@@ -239,7 +253,7 @@ pub fn simple_list_unkeyed_kf<N: Nondet>(n: &mut N) {
     let l = d.add_to_list(l, v).unwrap();
     let list = d.end_list(l).unwrap();
     let sym = n.u64();
-    pa!("C16", matches!(d.get_list_item_with_symbol(list, sym), Ok(None)));
+    pa!("C16", matches!(ok(d.get_list_item_with_symbol(list, sym)), Some(None)));
     std::mem::forget(d);
 }
 
@@ -263,11 +277,11 @@ pub fn basic_readback<N: Nondet>(n: &mut N) {
     d.push_instruction(garnish_lang_traits::Instruction::EndExpression, None).unwrap();
     let u = d.add_unit().unwrap();
     gv_cover!(true, "filled");
-    pa!("C15", matches!(d.get_number(x), Ok(SimpleNumber::Integer(v)) if v == a));
-    pa!("C15", matches!(d.get_symbol(y), Ok(v) if v == b));
-    pa!("C15", matches!(d.get_byte(z), Ok(v) if v == c));
-    pa!("C15", matches!(d.get_pair(p), Ok((l, r)) if l == x && r == y));
-    pa!("C15", matches!(d.get_data_type(u), Ok(T::Unit)));
+    pa!("C15", matches!(ok(d.get_number(x)), Some(SimpleNumber::Integer(v)) if v == a));
+    pa!("C15", matches!(ok(d.get_symbol(y)), Some(v) if v == b));
+    pa!("C15", matches!(ok(d.get_byte(z)), Some(v) if v == c));
+    pa!("C15", matches!(ok(d.get_pair(p)), Some((l, r)) if l == x && r == y));
+    pa!("C15", matches!(ok(d.get_data_type(u)), Some(T::Unit)));
     pa!("C15", d.get_from_jump_table(0) == Some(7) && d.get_from_jump_table(1) == Some(8) && d.get_from_jump_table(2) == Some(9));
     pa!("C15", d.get_instruction(0) == Some((garnish_lang_traits::Instruction::Add, Some(3))));
     pa!("C15", d.get_instruction(2) == Some((garnish_lang_traits::Instruction::EndExpression, None)));
